@@ -16,7 +16,7 @@ import exceptions as spec_exceptions
 # by the HOOKS / provenance rules (rules_hooks.py), not by the typestate interpreter.
 PRIMITIVE_BODIES = {
     "input::InputRef::with_ctx", "input::InputRef::with_state", "input::InputRef::with_input",
-    "input::InputRef::save", "input::InputRef::rewind", "input::InputRef::cursor",
+    "input::InputRef::save", "input::InputRef::rewind", "input::InputRef::rewind_input", "input::InputRef::cursor",
     "input::InputRef::next_inner", "input::InputRef::next_maybe_inner", "input::InputRef::next_ref_inner",
     "input::InputRef::next", "input::InputRef::next_maybe", "input::InputRef::next_ref",
     "input::InputRef::skip_while", "input::InputRef::skip_bytes", "input::InputRef::skip",
